@@ -124,9 +124,9 @@ func main() {
 	g.lockObls = true
 	tmo := *timeout
 	if tmo == 0 {
-		tmo = 10
+		tmo = 20
 		if *tier == "thorough" {
-			tmo = 60
+			tmo = 90
 		}
 	}
 
